@@ -232,12 +232,26 @@ def run(shard, ctx):
                     f = lambda: nc.empty(); m.m = []; hist.append(("empty",))
                 elif op == 13:
                     # a shorthand constructor on a container that already holds notes (it starts over)
-                    sh = rng.choice(["C", "E", "G", "Bb", "F#"]) + rng.choice(["", "m7", "7", "dim7", "M7", "sus4", "6"])
-                    names_ = chords.from_shorthand(sh)
+                    which = rng.choice(["chord", "chord", "progression", "interval"])
+                    if which == "chord":
+                        sh = rng.choice(["C", "E", "G", "Bb", "F#"]) + rng.choice(["", "m7", "7", "dim7", "M7", "sus4", "6"])
+                        names_ = chords.from_shorthand(sh)
+                        f = lambda: nc.from_chord_shorthand(sh)
+                    elif which == "progression":
+                        sh, key_ = rng.choice(["I", "IV", "V7", "vi", "ii7", "bII"]), rng.choice(["C", "G", "F", "a", "Eb"])
+                        from mingus.core import progressions as _P
+                        names_ = _P.to_chords(sh, key_)[0]
+                        f = lambda a_=sh, b_=key_: nc.from_progression_shorthand(a_, b_)
+                        sh = "%s in %s" % (sh, key_)
+                    else:
+                        start_, ish = rng.choice(["C", "E", "Ab", "F#"]), rng.choice(["3", "b3", "5", "b7", "2", "#4"])
+                        from mingus.core import intervals as _I
+                        names_ = [start_, _I.from_shorthand(start_, ish)]
+                        f = lambda a_=start_, b_=ish: nc.from_interval_shorthand(a_, b_)
+                        sh = "%s up %s" % (start_, ish)
                     m.m = []
                     [m.add(x) for x in names_]
-                    f = lambda: nc.from_chord_shorthand(sh)
-                    hist.append(("from_chord_shorthand on the used container", sh))
+                    hist.append(("from_%s_shorthand on the used container" % which, sh))
                 elif op == 0:
                     f = lambda: nc.add_note(n); m.add(n); hist.append(("add", n))
                 elif op == 1:
